@@ -350,6 +350,37 @@ pub fn tx_flow(tier: Tier, init: usize, max: usize, depth: usize) -> Driver {
     Driver { name: format!("tx-flow-{init}-{max}"), cfg, prefix: vec![], alphabet, depth, state_cap: tier.pick(400_000, 6_000_000) }
 }
 
+/// Ring growth with a partly filled ring: the congestion window has outgrown the 20-byte ring, which
+/// grows (towards 80) as soon as it is more than 90 % full - i.e. with one byte still free.
+pub fn tx_grow(tier: Tier, depth: usize) -> Driver {
+    let mut d = tx_flow(tier, 20, 80, depth);
+    d.name = "tx-grow-20-80".into();
+    let w = |b: usize| WndSpec::Bytes(b as u32);
+    d.prefix = vec![
+        Act::Write(8),
+        state(AckSpec::All, w(1 << 20), SackSpec::None),
+        Act::Write(16),
+        state(AckSpec::All, w(1 << 20), SackSpec::None),
+        Act::Write(18),
+        state(AckSpec::All, w(1 << 20), SackSpec::None),
+        state(AckSpec::All, w(1 << 20), SackSpec::None),
+    ];
+    d.alphabet = vec![
+        Act::Write(19),
+        Act::Write(1),
+        Act::Write(2),
+        Act::Write(40),
+        state(AckSpec::Plus(1), w(1 << 20), SackSpec::None),
+        state(AckSpec::All, w(1 << 20), SackSpec::None),
+        state(AckSpec::Cur, w(1 << 20), SackSpec::None),
+        Act::Flush,
+        Act::Tick,
+        Act::Spurious,
+        Act::RepollWriterOtherTask,
+    ];
+    d
+}
+
 /// Close paths: flush / shutdown / drop of either half in every order, with data in either direction.
 pub fn close(tier: Tier, depth: usize) -> Driver {
     let cfg = SoloCfg::tiny(MSS);
@@ -519,6 +550,7 @@ pub fn all_drivers(tier: Tier) -> Vec<Driver> {
         v.push(tx_flow(tier, i, m, 6));
     }
     v.push(close(tier, 6));
+    v.push(tx_grow(tier, 5));
     v.extend(hostile_all(tier, 2));
     v.push(mtu(tier, 700, Some(600), None, 0, 6));
     v.push(mtu(tier, 700, None, None, 1, 6));
